@@ -101,7 +101,7 @@ func OvsToNativeAtomic(basicType string, ovsElem interface{}) (interface{}, erro
 		if ovsElem == nil || !reflect.TypeOf(ovsElem).ConvertibleTo(naType) {
 			return nil, NewErrWrongType("OvsToNativeAtomic", fmt.Sprintf("Convertible to %s", naType), ovsElem)
 		}
-		if f, ok := ovsElem.(float64); ok && f != math.Trunc(f) {
+		if f, ok := ovsElem.(float64); ok && (f != math.Trunc(f) || f < -(1<<63) || f >= 1<<63) {
 			return nil, NewErrWrongType("OvsToNativeAtomic", "integer", ovsElem)
 		}
 		return reflect.ValueOf(ovsElem).Convert(naType).Interface(), nil
